@@ -217,13 +217,15 @@ Let w := wrap_of N circular.
 
 (* ---------- apply_cluster_rules ---------- *)
 (* what is cached per cutoff: nearby features and circular_origin (nearby results are a
-   function of the nearby features) *)
+   function of the nearby features).  circular_origin is the record length on EVERY circular record
+   (repair of finding C03-K8 anchor_window_full_record: it used to be set only when the cutoff window
+   had two parts, so a window covering the whole record - one part - measured without wrapping) *)
 Definition info := (list gene * Z)%type.
 Definition gene_info (g : gene) (cutoff : Z) : res info :=
   do l <- connect_locations [snd g] w;
   if 2 <? zlen l then Err E_Assert else
   do l <- extend_area l cutoff N circular false;
-  Ok (within gs l true, if is_compound l && circular then N else 0).
+  Ok (within gs l true, if circular then N else 0).
 
 Definition rule_ctx (r : rule) (i : info) : C01.Model.ctx :=
   C01.Model.mkCtx (r_cut r) (Some (snd i)) (fst i)
@@ -426,6 +428,35 @@ Definition merge_step (acc : res (list (proto * loc))) (cl : proto * loc) : res 
       Ok ((m, ext) :: rest)
     else Ok (cl :: done)
   end.
+(* the second pass on a circular record (repair of finding C03-K7 merge_scan_adjacent_only): every extended
+   location that wraps the origin starts at 0, so the sort order is not the order on the ring; after the scan
+   the clusters that are left are compared pairwise - for i, j in itertools.combinations(range(len), 2), i.e. the
+   first pair (i < j) in lexicographic order whose later core overlaps the earlier extended location is merged
+   into position i, position j is deleted, and the search starts again - until no pair is left *)
+Fixpoint split_first {A} (p : A -> bool) (l : list A) : option (list A * A * list A) :=
+  match l with
+  | [] => None
+  | y :: r => if p y then Some ([], y, r)
+              else match split_first p r with Some (b, z, a) => Some (y :: b, z, a) | None => None end
+  end.
+Fixpoint ring_merge_once (l : list (proto * loc)) : res (option (list (proto * loc))) :=
+  match l with
+  | [] => Ok None
+  | x :: r =>
+    match split_first (fun y : proto * loc => overlap (p_core (fst y)) (snd x)) r with
+    | Some (before, y, after) =>
+      do m <- merge_pair (fst x) (fst y);
+      do ext <- extend_location (p_core m) (r_cut (nth_rule rules (p_rule m))) N circular;
+      Ok (Some ((m, ext) :: before ++ after))
+    | None => do o <- ring_merge_once r; Ok (match o with Some r' => Some (x :: r') | None => None end)
+    end
+  end.
+(* while merged_any: ...; every round but the last removes one cluster, so len(new_clusters) rounds suffice *)
+Fixpoint ring_merge (fuel : nat) (l : list (proto * loc)) : res (list (proto * loc)) :=
+  match fuel with
+  | O => Ok l
+  | S f => do o <- ring_merge_once l; match o with Some l' => ring_merge f l' | None => Ok l end
+  end.
 (* [key]: the sort key of a (cluster, extended core) pair *)
 Definition merge_group (key : proto * loc -> Z) (group : list (proto * loc)) : res (list proto) :=
   match group with
@@ -433,7 +464,8 @@ Definition merge_group (key : proto * loc -> Z) (group : list (proto * loc)) : r
   | _ =>
     let sorted := sort_by (fun a b => key a <? key b) group in
     do done <- fold_left merge_step sorted (Ok []);
-    Ok (map fst (rev done))
+    do kept <- (if circular then ring_merge (length done) (rev done) else Ok (rev done));
+    Ok (map fst kept)
   end.
 Fixpoint product_order (l : list proto) (seen : list Z) : list Z :=
   match l with
